@@ -57,7 +57,7 @@ theorem C16_args_spec (iv : Int) (to : Option Int) :
 theorem C16_args_refused_before_connecting (c : App.Cfg) (s : App.St)
     (h : App.argsAccepted c.iv c.to = false) :
     (App.runForever c s).trace = s.trace ++ [(s.now, .raisedOut .wsgeneric)] := by
-  simp [App.runForever, h, App.St.emit]
+  simp [App.runForever, App.runForeverO, h, App.St.emit]
 
 example : App.argsAccepted 3072 (some 2048) = true ∧ App.argsAccepted 2048 (some 2048) = false ∧
     App.argsAccepted 0 (some 5) = true ∧ App.argsAccepted 5 (some 0) = false ∧
